@@ -220,8 +220,39 @@ static void tc_dump(void)
 	printf("cfg p=%u dh=%d ec=%d", (unsigned)tc->protocols, tc->dheparams, tc->ecdhecurve);
 }
 
+/* contents of every string / blob field of the config: present?, length, hash */
+#define TC_NF 10
+struct TcField { int set; size_t len; uint64_t h; };
+static const char *tc_fname[TC_NF] = { "ca_file", "ca_path", "ca_mem", "ciphers", "ocsp_file", "ocsp_mem",
+	"cert_file", "cert_mem", "key_file", "key_mem" };
+static void tc_one(struct TcField *f, const void *p, size_t len)
+{
+	size_t i; const unsigned char *b = p;
+	f->set = p != NULL; f->len = len; f->h = HC_FNV_INIT;
+	for (i = 0; p && i < len; i++) f->h = hc_fnv(f->h, b[i]);
+}
+static void tc_str(struct TcField *f, const char *s) { tc_one(f, s, s ? strlen(s) : 0); }
+static void tc_snap(struct TcField *f)
+{
+	struct tls_keypair *kp = tc->keypair;
+	tc_str(&f[0], tc->ca_file); tc_str(&f[1], tc->ca_path); tc_one(&f[2], tc->ca_mem, tc->ca_len);
+	tc_str(&f[3], tc->ciphers); tc_str(&f[4], tc->ocsp_file); tc_one(&f[5], tc->ocsp_mem, tc->ocsp_len);
+	tc_str(&f[6], kp->cert_file); tc_one(&f[7], kp->cert_mem, kp->cert_len);
+	tc_str(&f[8], kp->key_file); tc_one(&f[9], kp->key_mem, kp->key_len);
+	/* a blob that is unset must be cleanly unset: NULL and length 0 */
+	if (!tc->ca_mem && tc->ca_len) f[2].set = -1;
+	if (!tc->ocsp_mem && tc->ocsp_len) f[5].set = -1;
+	if (!kp->cert_mem && kp->cert_len) f[7].set = -1;
+	if (!kp->key_mem && kp->key_len) f[9].set = -1;
+}
+static int tc_same(const struct TcField *a, const struct TcField *b)
+{
+	return a->set == b->set && a->len == b->len && a->h == b->h;
+}
+
 static void do_tls(int n, char **w)
 {
+	struct TcField before[TC_NF], afterf[TC_NF]; int fi_, certnew = 0;
 	int r = 0, fired; char *z; uint8_t *b; long bl;
 	const char *what;
 	const void *after = NULL; int havefield = 0;
@@ -242,6 +273,7 @@ static void do_tls(int n, char **w)
 	if (memchr(b, 0, bl)) { free(b); BAD(); }
 	z = malloc(bl + 1); memcpy(z, b, bl); z[bl] = 0;
 	if (!tc) { free(b); free(z); SKIP(); }
+	tc_snap(before);
 	op_begin();
 	if (!strcmp(what, "ca_file")) { ARM(r = tls_config_set_ca_file(tc, z)); after = tc->ca_file; havefield = 1; }
 	else if (!strcmp(what, "ca_path")) { ARM(r = tls_config_set_ca_path(tc, z)); after = tc->ca_path; havefield = 1; }
@@ -267,9 +299,23 @@ static void do_tls(int n, char **w)
 	}
 	else if (!strcmp(what, "ocsp_stapling_mem")) { ARM(r = tls_config_set_ocsp_stapling_mem(tc, b, bl)); after = tc->ocsp_mem; havefield = 1; }
 	else { free(b); free(z); BAD(); }
-	free(b); free(z);
 	fired = fi_fired > fi_fired_before;
+	tc_snap(afterf);
+	/* set_keypair_mem is documented as two steps: the certificate may already be the new one */
+	if (!strcmp(what, "keypair_mem") && tc->keypair->cert_mem && tc->keypair->cert_len == (size_t)bl &&
+	    !memcmp(tc->keypair->cert_mem, b, bl)) certnew = 1;
+	free(b); free(z);
 	op_prefix(r != 0); printf("%d", r);
+	/* a setter failed by the allocator: every field is what it was, or cleanly unset (NULL, len 0:
+	 * the library releases the old value before it duplicates the new one) -- a non-NULL field
+	 * with other contents is neither */
+	if (fired && r != 0)
+		for (fi_ = 0; fi_ < TC_NF; fi_++) {
+			int unset = afterf[fi_].set == 0 && afterf[fi_].len == 0;
+			if (tc_same(&before[fi_], &afterf[fi_]) || unset) continue;
+			if (fi_ == 7 && certnew) continue;
+			printf(" CORRUPT(%s)", tc_fname[fi_]);
+		}
 	/* observation only (not part of the state dump): what a failed setter left in its field */
 	if (fired && r != 0 && havefield) fputs(after ? ":field-kept" : ":field-cleared", stdout);
 	putchar(' '); tc_dump(); op_end();
